@@ -1915,6 +1915,11 @@ class Builder:
             self._build_cmds_post_epr(
                 qubit_ids_array, params, ent_results_array, EPRType.K, role
             )
+            if params.sequential:
+                # All pairs shared one virtual ID and were handled by the post
+                # routine one by one: that ID is free again.
+                for q in qubit_futures:
+                    q.active = False
 
         return qubit_futures, ent_results_array
 
